@@ -15,7 +15,7 @@ func init() {
 		ID: "C09",
 		Explanation: "WorkerPool mechanisms decided on SSA: (R1) panic isolation - the goroutine body that invokes jobs received from the job queue registers, before the job call, a deferred closure that calls recover() and, when a panic was recovered, invokes the configured handler exactly once; the job is called synchronously exactly once per receive and only when non-nil; (R2) cap - every increment of the worker counter happens under the pool's exclusive lock, dominated inside the same hold by workerCount < workerSizeMaximum, and is followed by exactly one `go` of the worker body, whose deferred exit decrements the counter exactly once under the lock; jobs are invoked nowhere else; " +
 			"(R3) a worker that dies from a panicking job wakes the spawn loop after its decrement (feasible-path enumeration through the recovered flag); (R4) accept/reject - Schedule never invokes or spawns its argument, hands it only to the queue's Offer, maps ErrQueueIsFull to ErrWorkerPoolJobQueueIsFull and passes other results through; ScheduleWithTimeout returns only Schedule's results, ErrWorkerPoolIsClosed, or ErrWorkerPoolScheduleTimeout after the deadline test; Invoke* wrap callee(val) exactly once. " +
-			"(R5) spawn requests (posted by Schedule and by dying workers) are consumed only by the spawn loop and each one taken leads to a sizing pass: a request that is taken and dropped leaves accepted jobs without a worker. Not decided: exactly-once execution over all spawn-loop/loader/expiry interleavings (liveness), idle-expiry races, unsynchronised setters.",
+			"(R5) spawn requests (posted by Schedule and by dying workers) are consumed only by the spawn loop and each one taken leads to a sizing pass: a request that is taken and dropped leaves accepted jobs without a worker. Not decided: exactly-once execution over all spawn-loop/loader/expiry interleavings (liveness), idle-expiry races, unsynchronised setters. (R7) the worker fetches the job channel through GetChannel() in every iteration of its loop (the call wakes the queue loader).",
 		Trusted: commonTrusted,
 		Run:     runC09,
 		Relies: []Dep{
